@@ -368,6 +368,9 @@ def run(prog: Program, res: Result, tier: str) -> None:
     from ..report import depends as _depends
     _depends(res, "R5", prog, tier, "C08", accept=lambda o: "to_file" in (o.key or "") or "file-dm" in (o.key or ""),
              why="the DM of a block written with to_file and read back: C08's rules for the DM recorded by to_file and carried by read_block are re-evaluated here")
+    _depends(res, "R2", prog, tier, "C02", accept=lambda o: o.rule == "C02.R2" and "read_block" in (o.where or ""),
+             why="reading a product back with read_block: every read is positioned by an absolute seek to the sample asked for (C02.R2) - a reader that "
+                 "trusts the position a previous call left returns other samples than the ones written")
     res.floor("R1", 1)
     res.floor("R6", 3)
     res.floor("R7", 5)
